@@ -1,7 +1,8 @@
 (* Task PF, C01: the history-level statement (safety half) as a ghost per-client
-   specification evaluated on the observations of a run, tests of it on model
-   runs, and the refutation of the variant that admits GetAndDelete (defect D6).
-   Not proved in general; what is proved about C01 is in IsoLaws.v. *)
+   specification evaluated on the observations of a run, and tests of it on model
+   runs (scripts may use GetAndDelete: it writes through since the repair of D6).
+   Not proved in general here; what is proved about C01 is in IsoLaws.v and
+   C01Hist*.v. *)
 From Sessions Require Import Model.Base Model.Sess Model.Hist Model.Corr.
 
 (* what a client's session holds, as the client last wrote it: data, user ID *)
@@ -86,12 +87,11 @@ Fixpoint g_run (g : list (N * gdata)) (hs : list hop) (os : list obs) : bool :=
 
 (* histories of cookie-following clients: no forged cookies, no faults, no
    crashes; everything else of the alphabet is allowed *)
-Definition c01_hop (getdel : bool) (h : hop) : bool :=
+Definition c01_hop (h : hop) : bool :=
   match h with
   | HReq r =>
     match rq_present r, rq_plan r, rq_crash r with
-    | PJar, [], None =>
-      getdel || forallb (fun op => match op with SGetDel _ => false | _ => true end) (rq_script r)
+    | PJar, [], None => true
     | _, _, _ => false
     end
   | HPurge _ pl => match pl with [] => true | _ => false end
@@ -100,26 +100,24 @@ Definition c01_hop (getdel : bool) (h : hop) : bool :=
   | _ => true
   end.
 
-(* C01, safety half: along every such history whose scripts do not use
-   GetAndDelete, every session a request returns holds exactly the data and user
+(* C01, safety half: along every such history (any scripts, GetAndDelete
+   included), every session a request returns holds exactly the data and user
    its client last wrote, or is a session created in that step, empty. *)
 Definition C01_safety_statement : Prop :=
-  forall c hs, forallb (c01_hop false) hs = true -> g_run [] hs (run c hs) = true.
-
-(* the same admitting GetAndDelete: false (D6: GetAndDelete never saves) *)
-Definition C01_safety_with_getdel : Prop :=
-  forall c hs, forallb (c01_hop true) hs = true -> g_run [] hs (run c hs) = true.
+  forall c hs, forallb c01_hop hs = true -> g_run [] hs (run c hs) = true.
 
 Definition rq (c : N) (create : bool) (script : list sop) : hop :=
   HReq (mkReqStep c PJar create (AOther 0) 7 script [] [] None).
 
 Definition cfg0 : cfg := mkCfg 1000 1000 100 1000 0 0 true false.     (* cache off *)
 
-Lemma C01_getdel_refuted : ~ C01_safety_with_getdel.
-Proof.
-  intro H. specialize (H cfg0 [rq 1 true [SSet 1 2]; rq 1 false [SGetDel 1]; rq 1 false [SGet 1]] eq_refl).
-  vm_compute in H. discriminate.
-Qed.
+(* GetAndDelete with the cache off: the deletion reaches the store, the next
+   request sees the key gone, as the ghost specification says *)
+Example C01_getdel_test :
+  let hs := [rq 1 true [SSet 1 2]; rq 1 false [SGetDel 1; SGetDel 1]; rq 1 false [SGet 1]] in
+  forallb c01_hop hs = true /\ g_run [] hs (run cfg0 hs) = true /\
+  map ob_script (run cfg0 hs) = [[SOk]; [SVal (Some 2%N); SVal None]; [SVal None]].
+Proof. vm_compute. repeat split. Qed.
 
 (* tests of the statement on model runs: two clients, rotation on every request
    (SessionIDExpiry 0), cache sizes 0, 1 and 10, purges, cache loss, restarts,
@@ -133,7 +131,7 @@ Definition hist_mix : list hop :=
    HRefreshUser (6, 3)%N [] []; rq 1 false [SSet 8 8]; rq 1 false []].
 
 Example C01_safety_tests :
-  forallb (c01_hop false) hist_mix = true /\
+  forallb c01_hop hist_mix = true /\
   forallb (fun mc => g_run [] hist_mix (run (mkCfg 1000 (fst mc) 100 1000 (snd mc) 0 true false) hist_mix))
           [(0, 0); (0, 1); (0, 10); (1000, 0); (1000, 1); (1000, 10); (20, 1)]%Z = true /\
   map ob_res (run (mkCfg 1000 0 100 1000 1 0 true false) hist_mix) =
